@@ -193,6 +193,8 @@ class Kinds(object):
             ("to_map", q, lambda o, a, x: o.to_map()), ("expect_list", q, lambda o, a, x: o.expect(x["list"])), ("expect_pauli", q, lambda o, a, x: o.expect(x["gen"])),
             ("expect_poly", q, lambda o, a, x: o.expect(x["poly"])), ("expect_state", q, lambda o, a, x: o.expect(a)),
             ("entropy", q, lambda o, a, x: o.entropy([0])), ("entropy_mask", q, lambda o, a, x: o.entropy(numpy.array([True, False]))),
+            ("entropy_arr", q, lambda o, a, x: o.entropy(x["region"])), ("entropy_arr_neg", q, lambda o, a, x: o.entropy(x["region_neg"])),
+            ("entropy_list_arg", q, lambda o, a, x: o.entropy(x["region_list"])), ("get_prob_arg", q, lambda o, a, x: o.get_prob(x["readout"])),
             ("sample", q, lambda o, a, x: o.sample(3)), ("get_prob", q, lambda o, a, x: o.get_prob(be_.ivec([0, 1]))),
             ("density_matrix", q, lambda o, a, x: o.density_matrix), ("to_qutip", q, lambda o, a, x: o.to_qutip()), ("tokenize", q, lambda o, a, x: o.tokenize()),
             ("neg", q, lambda o, a, x: -o), ("rmul", q, lambda o, a, x: 2 * o), ("matmul", q, lambda o, a, x: o @ x["gen"]),
@@ -242,7 +244,9 @@ class Kinds(object):
         pool = getattr(self, "pool", None)
         x = {"gen": be.pauli([1, 2, 2]), "gen1": be.pauli([3, 0]), "map": be.cmap(MAPW), "map1": be.cmap(MAP1),
              "list": be.plist([[1, 3, 1], [2, 2, 0], [0, 3, 2]]), "commuting": be.plist([[3, 3, 2], [1, 1, 0]]),
-             "state": be.state(ins_to_state(MAPW), 0), "poly": be.poly([[1, 1, 1], [3, 0, 2]], [0.5, 2 - 1j])}
+             "state": be.state(ins_to_state(MAPW), 0), "poly": be.poly([[1, 1, 1], [3, 0, 2]], [0.5, 2 - 1j]),
+             # plain arrays / lists handed to queries (labels from the end included: the caller's array must stay as it is)
+             "region": numpy.array([1, 0]), "region_neg": numpy.array([0, -1]), "region_list": [1, -2], "readout": be.ivec([0, 1])}
         if pool and variant >= 3:
             m = pool[(variant * 15485863 + 5) % len(pool)]
             x["state"] = be.state(ins_to_state(m), 0)
@@ -414,6 +418,10 @@ class C17(Prop):
                         if name != "postselect":
                             raise
                         rec["refused"] = "ValueError"        # documented: post-selection needs a pure state
+                    except Exception:
+                        if name not in ("entropy_arr_neg", "entropy_list_arg"):
+                            raise
+                        rec["refused"] = "other"             # from-the-end labels need not be accepted; the frame is judged anyway
                     after = {k2: val(v2) for k2, v2 in heap.items()}
                     if cls == "argmut" or kind in LAZY:
                         after["o"] = mask_unset(before["o"], after["o"])
